@@ -5,7 +5,7 @@
 From Coq Require Import ZArith List Bool Lia FMapPositive.
 From Gen Require Import Constants OsImage.
 From Model Require Import Tree Bits Word Instr Sim Load.
-From Proofs Require Import Ranges SimStep OsProofs.
+From Proofs Require Import Ranges SimStep OsProofs OsPutsp.
 Import ListNotations.
 Open Scope Z_scope.
 
@@ -245,4 +245,29 @@ Proof.
   split; [reflexivity|]. split; [reflexivity|]. split.
   - intros r Hr6. assert (r = 0 \/ r = 1 \/ r = 2 \/ r = 3 \/ r = 4 \/ r = 5) as [-> | [-> | [-> | [-> | [-> | ->]]]]] by lia; reflexivity.
   - subst m. apply (meo_user (sp - 2) sp); [lia | exact Hmeo].
+Qed.
+
+(* PUTSP: packed string at R0: full words ws (both bytes non-zero) then a terminator word z whose low
+   byte is zero, or whose high byte is zero (odd length: its low byte is still printed) *)
+Theorem contract_putsp s sp ws z q buf sc t :
+  user_ready s sp q buf -> OS_END + 9 <= sp <= USER_START ->
+  mget (s_mem s) (s_pc s) = new_init 61476 ->       (* TRAP x24 *)
+  full_ok ws -> term_ok z -> pstr_at (s_mem s) (w_data (rget (s_regs s) 0)) ws z ->
+  USER_START <= w_data (rget (s_regs s) 0) -> w_data (rget (s_regs s) 0) + Z.of_nat (length ws) < IO_START ->
+  ds_always_free sc ->
+  exists n s', run sc t n s = (s', OOk) /\ s_pc s' = wrap16 (s_pc s + 1) /\ s_regs s' = s_regs s /\
+               s_devs s' = kdevs q (buf ++ packed_out ws z) /\ same_user_view s s'.
+Proof.
+  intros Hur Hsp Hw Hfull Hterm Hstr Ha0 Ha1 Hfree. use_mk s Hur. destruct (ready_access K s sp q buf Hur) as [Hpc Hacc].
+  rewrite Hrs in Hstr, Ha0, Ha1. rewrite rget0 in Hstr, Ha0, Ha1.
+  destruct (putsp_call K sc t ws z m r0 r1 r2 r3 r4 r5 r6 r7 (s_pc s) (s_psr s) (new_init sp) (s_frame_no s) (s_frames s) (s_instrs s)
+              (s_prefetch s) (s_obs s) (s_mcr s) q buf sp) as (n & m' & ins' & obs' & Hrun & Hmeo).
+  { rewrite (ur_user _ _ _ _ Hur). reflexivity. } { exact Hsp. } { subst m. exact (ur_os _ _ _ _ Hur). }
+  { exact Hpc. } { exact Hacc. } { subst m. exact Hw. } { exact (ur_fno _ _ _ _ Hur). }
+  { exact Hfull. } { exact Hterm. } { subst m. exact Hstr. } { unfold USER_START, sim.USER_START in Ha0. lia. } { exact Ha1. }
+  { right. lia. } { exact Hfree. }
+  rewrite <- Hs in Hrun.
+  exists n. eexists. split; [exact Hrun|]. rewrite Hrs.
+  split; [reflexivity|]. split; [reflexivity|]. split; [reflexivity|].
+  finish_view Hs Hur Hmeo (sp - 9) sp m.
 Qed.
